@@ -283,16 +283,28 @@ def run(ctx, rep_):
     rep_.assume("the compatibility relation eq_complex over compound types, container element kinds and `typeof` text are not decided")
     rep_.assume("a data-dependent failure (overflow, zero divisor, nil) is a defined dynamic failure, not a typing failure")
     run_optable(ctx, rep_, F)
+    return_marking(F, rep_, "C02.return-marking")
+    from props import _identity
+    _identity.zip_lengths(F, rep_, "C02.zip-length")
+
+    if _builtins is not None:
+        _builtins.run(F, rep_, "C02.builtin", None)
+    if _visit is not None:
+        _visit.run(F, rep_, "C02.visit")
+
+
+def return_marking(F, rep_, rule):
+    """(d) all-paths-return marking: shared by C02 (soundness) and C03 (a missing return value is a type error to be reported)."""
     # ---- (d) all-paths-return marking ----------------------------------------------------------------------
     MARK = "compiler::parser::AssocFileData::mark_should_return_as_completed"
     callers = F.callers_of(MARK)
     allowed = {"compiler::parser::Parser::if_statement", "compiler::parser::Parser::return_statement"}
-    rep_.floor("C02.return-marking call sites", len(callers), 2)
+    rep_.floor(rule + " call sites", len(callers), 2)
     for f, c in callers:
         ok = bool(f.forms & allowed)
-        rep_.ob("C02.return-marking", "a function is marked as returning only by `return` or by an `if` whose branches all return (caller %s)" % mir.short(f.path),
+        rep_.ob(rule, "a function is marked as returning only by `return` or by an `if` whose branches all return (caller %s)" % mir.short(f.path),
                 "ok" if ok else "violated", "a loop or another construct marking its enclosing function as always-returning lets a function fall off its end "
-                "without a value", c.span, fn=f.path, key="C02.return-marking|caller|%s" % mir.short(f.path))
+                "without a value", c.span, fn=f.path, key=rule + "|caller|%s" % mir.short(f.path))
     ifs = F.fn("compiler::parser::Parser::if_statement")
     if ifs is None:
         raise AnchorMissing("Parser::if_statement")
@@ -302,8 +314,8 @@ def run(ctx, rep_):
         doms = [c for c in abr if all(ifs.dominates(c.bb, o.bb) for o in abr)]
         first = doms[0] if doms else abr[0]
         v, info = rules.guarded_by_bool(ifs, [m.bb for m in marks], [first.dst["l"]], want=True)
-        rep_.ob("C02.return-marking", "if: marking requires that every path of the `if` body returns", v, str(info), marks[0].span, fn=ifs.path,
-                key="C02.return-marking|if-body")
+        rep_.ob(rule, "if: marking requires that every path of the `if` body returns", v, str(info), marks[0].span, fn=ifs.path,
+                key=rule + "|if-body")
         # and either the else branch returns on all paths or the condition is known to be true
         others = [c for c in abr if c is not first]
         truthy = [l for l, nm in ifs.names.items() if "truthy" in nm]
@@ -313,13 +325,9 @@ def run(ctx, rep_):
         removed = {(bb, t_t) for bb, t_t, f_t, pol in sws if pol}
         reach = ifs.reachable(0, removed_edges=removed)
         bad = [m.bb for m in marks if m.bb in reach]
-        rep_.ob("C02.return-marking", "if: marking also requires that the else branch returns on every path (or the condition is constant true)",
-                "violated" if bad or not sws else "ok", "tests: %d" % len(sws), marks[0].span, fn=ifs.path, key="C02.return-marking|else-branch")
+        rep_.ob(rule, "if: marking also requires that the else branch returns on every path (or the condition is constant true)",
+                "violated" if bad or not sws else "ok", "tests: %d" % len(sws), marks[0].span, fn=ifs.path, key=rule + "|else-branch")
     else:
-        rep_.ob("C02.return-marking", "if: marking is guarded by all_branches_return", "violated", "anchors missing in if_statement", ifs.span, fn=ifs.path,
-                key="C02.return-marking|if-body")
+        rep_.ob(rule, "if: marking is guarded by all_branches_return", "violated", "anchors missing in if_statement", ifs.span, fn=ifs.path,
+                key=rule + "|if-body")
 
-    if _builtins is not None:
-        _builtins.run(F, rep_, "C02.builtin", None)
-    if _visit is not None:
-        _visit.run(F, rep_, "C02.visit")
